@@ -8,7 +8,7 @@ from props import pipeline as pl
 
 
 def build(res):
-    std_build(res)
+    std_build(res, release=True)
 
 
 def gen_history(rng):
@@ -143,6 +143,19 @@ def run(res):
         want = "ok " + pl.nums_str([x for ch in chunks for x in ch])
         if a3.strip() != want.strip():
             obad.append((iq[i], a3, "file written around rejected calls does not decode to exactly the accepted chunks"))
+    # chunk sizes around the 2^24-1 limit, with and without delta encoding (release build for speed)
+    bq = ["bigchunk i16 8 0 16777215", "bigchunk i16 8 0 16777216", "bigchunk i16 8 1 16777216", "bigchunk bool 8 7 16777222", "bigchunk bool 8 7 16777215", "bigchunk i16 8 2 16777217"]
+    if thorough:
+        bq += ["bigchunk u16 12 7 16777216", "bigchunk i32 8 3 16777218", "bigchunk i32 0 1 16777215"]
+    ba = lib.run_impl(bq, release=True, shards=len(bq), timeout=3000)
+    for qq, aa in zip(bq, ba):
+        res.seen(qq)
+        n = int(qq.split()[-1])
+        if n > 16777215:
+            if not aa.startswith("err InvalidArgument size 6 -> 6"):
+                obad.append((qq, aa, "a chunk of more than 2^24-1 numbers was not rejected with InvalidArgument leaving the output unchanged"))
+        elif "equal=true" not in aa:
+            obad.append((qq, aa, "a chunk of exactly 2^24-1 numbers was rejected or does not round trip"))
     # one oversized chunk (2^24 numbers) must be rejected with InvalidArgument
     big = lib.run_impl(["bigrun i16 8 0 16777215 7", "bigrun i16 8 0 16777214 7"], release=False, shards=2, timeout=3000) if thorough else lib.run_impl(["bigrun i16 8 0 16777215 7"], timeout=3000)
     res.seen("bigrun oversized")
